@@ -77,8 +77,14 @@ def sym_guard(a, b):
     return not (has_kind(a, "b") and has_kind(b, "s")) and not (has_kind(a, "s") and has_kind(b, "b"))
 
 
+def big_int(v):
+    return v[0] == "i" and abs(v[1]) > (1 << 53)
+
+
 def trans_guard(a, b, c):
-    return (not has_kind(b, "d")) or (not has_kind(a, "i")) or (not has_kind(c, "i"))
+    """complement of the known class: the middle value holds a float, both outer values hold an int and one of
+    those ints lies beyond 2^53 (a subset of the complement of Ops.trans_guard, which the guarded theorem covers)"""
+    return not (has_kind(b, "d") and has_kind(a, "i") and has_kind(c, "i") and (anywhere(a, big_int) or anywhere(c, big_int)))
 
 
 TAGNAME = {"n": "nil", "t": "bool", "f": "bool", "i": "int", "d": "float", "y": "byte", "s": "string", "b": "byte_slice",
@@ -574,7 +580,7 @@ def oracle_sorted(l, line, route, F, stats):
         stats["sort_incomparable"] += 1
         return
     stats["sort_comparable"] += 1
-    mixed = has_kind(l, "i") and has_kind(l, "d")
+    mixed = anywhere(l, big_int) and has_kind(l, "d")
     known = K_MIX if mixed else None
     if f[0] != "ROK":
         if n >= 2:
@@ -762,6 +768,50 @@ def gen_cases(rng, tier):
     return cases, triples
 
 
+def parse_text(toks, pos=0):
+    """inverse of text(): returns (value, next position)"""
+    t = toks[pos]
+    if t in ("n", "t", "f"):
+        return (t,), pos + 1
+    if t.startswith("s="):
+        return ("s", bytes.fromhex(t[2:])), pos + 1
+    if t.startswith("b="):
+        return ("b", bytes.fromhex(t[2:])), pos + 1
+    if t.startswith("e0=") or t.startswith("e1="):
+        return ("e", t[1] == "1", bytes.fromhex(t[3:])), pos + 1
+    if t[0] == "i":
+        return ("i", int(t[1:])), pos + 1
+    if t[0] == "y":
+        return ("y", int(t[1:])), pos + 1
+    if t[0] == "d":
+        return ("d", int(t[1:], 16)), pos + 1
+    if t[0] in "LS":
+        n, items, pos = int(t[1:]), [], pos + 1
+        for _ in range(n):
+            v, pos = parse_text(toks, pos)
+            items.append(v)
+        return (t[0], items), pos
+    if t[0] == "M":
+        n, es, pos = int(t[1:]), [], pos + 1
+        for _ in range(n):
+            k = bytes.fromhex(toks[pos][2:])
+            v, pos = parse_text(toks, pos + 1)
+            es.append((k, v))
+        return ("M", es), pos
+    raise ValueError(t)
+
+
+def parse_case(line):
+    toks = line.split()
+    if toks[0] == "T":
+        toks = ["P"] + toks[1:]
+    vals, pos = [], 1
+    while pos < len(toks):
+        v, pos = parse_text(toks, pos)
+        vals.append(v)
+    return (toks[0], tuple(vals), "corpus")
+
+
 def corpus_cases():
     """witnesses of the known classes and past disagreements: run first"""
     out = []
@@ -848,9 +898,19 @@ def _body(res, tier, obs, model, work, proved):
     cov = res.coverage
     rng = C.Rng(res.seed)
     cases, triples = gen_cases(rng, tier)
-    corpus = corpus_cases()
-    lines = corpus + ["%s %s" % (k, " ".join(text(v) for v in vs)) for k, vs, _ in cases]
-    nc = len(corpus)
+    corpus = []
+    ctriples = []
+    for l in corpus_cases():
+        k, vs, meta = parse_case(l)
+        if l.startswith("T ") and len(vs) == 3:
+            ctriples.append((len(corpus), vs[0], vs[1], vs[2]))
+            corpus += [("P", (vs[0], vs[1]), "tri"), ("P", (vs[1], vs[2]), "tri"), ("P", (vs[0], vs[2]), "tri")]
+        else:
+            corpus.append((k, vs, meta))
+    triples = ctriples + [(b + len(corpus), x, y, z) for b, x, y, z in triples]
+    cases = corpus + cases
+    lines = ["%s %s" % (k, " ".join(text(v) for v in vs)) for k, vs, _ in cases]
+    nc = 0
     shards = C.NCPU
     with ThreadPoolExecutor(max_workers=2) as ex:
         fg = ex.submit(run_sharded, obs, lines, work, "go", shards)
@@ -933,11 +993,7 @@ def _body(res, tier, obs, model, work, proved):
             route = "script" if cases[base][0] == "p" else "api"
             oracle_triple(a, b, c, parsed[base], parsed[base + 1], parsed[base + 2], route, F, stats)
 
-    # corpus witnesses: replayed on the real code, reported as known findings when the class is listed
     known_ids = load_known_ids()
-    witness_seen = {}
-    for i in range(nc):
-        witness_seen[lines[i]] = go[i]
 
     evals = len(lines)
     cov["evaluations"] = evals
@@ -955,7 +1011,7 @@ def _body(res, tier, obs, model, work, proved):
     cov["samples"] = [{"case": lines[nc + i], "impl": go[nc + i], "model": mo[nc + i]}
                       for i in range(0, len(cases), max(1, len(cases) // 14))][:14]
     cov["correspondence"] = {"cases": evals, "differences": ndiff, "unparsable": badcase, "first_differences": diffs[:5]}
-    cov["input_distribution"] = {"kinds": kinds, "corpus": nc, **stats}
+    cov["input_distribution"] = {"kinds": kinds, "corpus": len(corpus), **stats}
     cov["oracle"] = {"violations": len(F.viol), "known_classes_seen": {k: v["count"] for k, v in F.known.items()}}
     res.assumptions += [
         "IEEE-754 binary64 comparison of non-NaN values is the integer order of the sign-magnitude bit pattern (model of Go's ==, > on float64); float64(int64) is round-to-nearest-even; both validated by the differential run on boundary values",
@@ -968,8 +1024,9 @@ def _body(res, tier, obs, model, work, proved):
     # decide
     for kid, info in F.known.items():
         if kid in known_ids:
-            res.known_finding("%s (%s; %d cases this run, e.g. %s)" % (known_ids[kid]["what"], kid, info["count"],
-                                                                        json.dumps(info["case"], sort_keys=True)[:300]))
+            ex = info["case"]
+            ex = " ".join("%s=%s" % (k, ex[k]) for k in ("a", "b", "c", "container", "x", "list") if k in ex)
+            res.known_finding("%s: %s [%d cases this run, e.g. %s]" % (kid, known_ids[kid]["what"], info["count"], ex[:160]))
         else:
             F.viol.append({"clause": info["clause"], "case": info["case"], "why": info["why"]})
     for v in F.viol[:10]:
